@@ -59,7 +59,7 @@ CHECKS = {
    note="Generated/Recon.lean (harness/translate_recon.py): recon_predict, recon_predict_is_model – SSPOR.predict / _square_predict / _rectangular_predict as written are the model's predictExact (solve when n_sensors == n_modes, else lstsq; system = gathered sensor rows; result = basis times coefficients); any extra statement (cache, cast, shortcut, keyword) makes the site untranslatable. PARTIAL on rounding: LAPACK's contract (solution / minimum-norm least-squares solution) is a parameter; budget 1e-7*scale*kappa^2."),
  "C08": dict(
    cat="proof", technique="Lean 4 theorems about the selection model (sorted permutation, top-n maximality, prefix, threshold iff, default threshold vs Real.sqrt) + history differential with injected exact coefficient arrays + translator regenerating the four selection branches of update_sensors, the stored count and the default threshold of fit from the AST (selProg = SelProg.spec by decide; sel_* = topN / threshSel; default_threshold_den)",
-   text="argsortDesc_perm/_sorted, topN_spec, topN_prefix, thresh_iff, thresh_antitone, thresh_zero_all, default_threshold_sq, update_count_ok, fit_count_ok, update_rejected_unchanged, updateRefused_count_ok (the count equals the selection even after a refit the classifier refuses – finding F16 is modelled as the code behaves); histories of fit/update_sensors on the real SSPOC "
+   text="argsortDesc_perm/_sorted, topN_spec, topN_prefix, thresh_iff, thresh_antitone, thresh_zero_all, default_threshold_sq, update_count_ok, fit_count_ok, update_rejected_unchanged, updateRefused_count_ok (the count equals the selection even after a refit the classifier refuses – finding F16 is modelled as the code behaves), sspoc_run_countOk (the count law as an invariant over every history of accepted fits and accepted / rejected / refused updates); histories of fit/update_sensors on the real SSPOC "
         "(solver output and injected dyadic arrays with ties, zeros and boundary-equal thresholds) are compared with the Lean machine canonically (multiset of magnitudes).",
    ref="DESIGN.md §5 C08",
    note="Generated/Selection.lean (harness/translate_selection.py) ties topN / threshSel / the 2·r·c denominator to the source on every run; numpy's argsort (unstable) is modelled by the stable argsortDesc, ties compared canonically. The order of equal magnitudes is left free (numpy's argsort is not stable); the aggregation callable is a parameter whose four documented instances are compared with the model on exact inputs; sklearn solvers are parameters."),
